@@ -1,4 +1,6 @@
 #![allow(unused_imports, dead_code, unused_variables, unused_mut)]
 pub mod env;
 #[cfg(kani)]
+mod c03;
+#[cfg(kani)]
 mod c10;
